@@ -290,6 +290,21 @@ def check_entry_new(F, C):
             else:
                 got.append(str(v)[:60])
         C.ob("C04/from-pairs-shape", key.split("FromIterator<")[1][:30], got == ["A: <a>\nB: <b1>\n <b2>\n"], "builds %r" % got, f["sp"])
+        # a list: every pair becomes a field of its own, in order - also a repeated name, a three-line value, an empty line inside
+        pairs = ("abs", "svec", (("tuple", (symstr.lit("A"), join_lines([A("a1")]))), ("tuple", (symstr.lit("B"), join_lines([A("b1"), A("b2"), A("b3")]))),
+                                 ("tuple", (symstr.lit("A"), join_lines([A("a2")]))), ("tuple", (symstr.lit("A"), symstr.mk([("atom", "a3", "line"), ("lit", "\n\n"), ("atom", "a5", "line")])))))
+        I = hirai.Interp(F, tm, max_depth=12)
+        res = I.inline(f, [pairs], hirai.State(depth=0))
+        got = []
+        for ctl, v, s in res:
+            v = I.deref_val(s, v)
+            if ctl == OK and v[0] == "enum" and v[2] and v[2][0][0] == "abs":
+                h = treemodel.heap_get(s)
+                got.append(symstr.show(symstr.mk(tm.text_of(h, v[2][0][2]))))
+            else:
+                got.append(str(v)[:60])
+        want = "A: <a1>\nB: <b1>\n <b2>\n <b3>\nA: <a2>\nA: <a3>\n \n <a5>\n"
+        C.ob("C04/from-pairs-list", key.split("FromIterator<")[1][:30], got == [want], "builds %r, expected %r (one field per pair, repeated names kept, every line kept)" % (got, want), f["sp"])
 
 
 def check_ownership(F, C):
